@@ -9,7 +9,10 @@ import (
 	"math/big"
 	"sort"
 	"strings"
+	"sync"
 	"unicode/utf8"
+
+	"verif/harness/vf"
 )
 
 type vkind int
@@ -282,7 +285,7 @@ func validateRefAgainstDocs() []string {
 	// percentiles([3,4,5,6,9,10], [25,75]) is 4, 9 ; interpolated 4.25, 8.25 ; percentile(...,90) is 10 / 9.5 ; median is 6 / 5.5
 	v := []string{"3", "4", "5", "6", "9", "10"}
 	chk := func(p string, interp bool, want string) {
-		c := refPercentile(v, ratOf(p), interp)
+		c := refPercentileSorted(sortForPercentiles(v), ratOf(p), interp, readEither)
 		if !c.match(want) {
 			bad = append(bad, fmt.Sprintf("percentile p=%s interp=%v: reference %s, documentation %s", p, interp, c, want))
 		}
@@ -295,7 +298,7 @@ func validateRefAgainstDocs() []string {
 	chk("75", true, "8.25")
 	chk("90", true, "9.5")
 	chk("50", true, "5.5")
-	s := refPercentile([]string{"abc", "def", "ghi", "ghi"}, ratOf("25"), false)
+	s := refPercentileSorted(sortForPercentiles([]string{"abc", "def", "ghi", "ghi"}), ratOf("25"), false, readEither)
 	if !s.match("def") {
 		bad = append(bad, "percentile of strings p25")
 	}
@@ -332,15 +335,67 @@ func valueCell(v string) cell {
 	return cText(v)
 }
 
-var pctBoundaryHits int64
+// ---------------------------------------------------------------- percentile boundary rule
+//
+// Where p*n/100 is an exact integer k the shipped texts give two readings:
+// the verb usage ("like R's type=1") means sorted[k-1], the function-help
+// worked example median([3,4,5,6,9,10]) = 6 means sorted[k]. No reading makes
+// the choice depend on p or n, so the SAME reading has to hold at every such
+// cell (law: uniform index rule). Which of the two documented readings Miller
+// follows is taken from that very worked example, run through the real code
+// once per process; every other boundary cell is then held to it. This only
+// applies when p is exactly representable in binary (integers, .5, .25, ...):
+// the product p*n is then exact in float64 and the documented formula has one
+// value. For a p like 33.3 the nearest double is not 33.3, and which side of
+// an exact decimal boundary (n a multiple of 1000) the float product falls on
+// is not determined by the documentation: either neighbour is accepted there.
+
+const (
+	readEither = 0
+	readHigh   = 1  // sorted[k]   (function-help example)
+	readLow    = -1 // sorted[k-1] (R type=1)
+)
+
+var (
+	boundaryOnce sync.Once
+	boundaryMode int
+)
+
+// boundaryReading probes the documented worked example on the real code.
+func boundaryReading() int {
+	boundaryOnce.Do(func() {
+		r := vf.RunMlr([]string{"-n", "put", "end{print median([3,4,5,6,9,10])}"}, vf.MlrOpts{})
+		switch strings.TrimSpace(r.Stdout) {
+		case "6":
+			boundaryMode = readHigh
+		case "5":
+			boundaryMode = readLow
+		default:
+			boundaryMode = readEither // reported by the DSL family as a wrong median
+		}
+	})
+	return boundaryMode
+}
+
+func isDyadic(p *big.Rat) bool {
+	d := p.Denom()
+	return new(big.Int).And(d, new(big.Int).Sub(d, big.NewInt(1))).Sign() == 0
+}
 
 // refPercentile: vals are the contributing (non-empty) values, unsorted.
 func refPercentile(vals []string, p *big.Rat, interp bool) cell {
-	n := len(vals)
+	if len(vals) == 0 {
+		return cFree("no data")
+	}
+	return refPercentileSorted(sortForPercentiles(vals), p, interp, boundaryReading())
+}
+
+// refPercentileSorted: sorted = the contributing values in percentile order.
+func refPercentileSorted(sorted []string, p *big.Rat, interp bool, reading int) cell {
+	n := len(sorted)
 	if n == 0 {
 		return cFree("no data")
 	}
-	sorted := sortForPercentiles(vals)
 	if !interp {
 		// position p*n/100
 		pos := new(big.Rat).Mul(p, big.NewRat(int64(n), 100))
@@ -357,8 +412,16 @@ func refPercentile(vals []string, p *big.Rat, interp bool) cell {
 		}
 		c := valueCell(sorted[clamp(k)])
 		if pos.IsInt() && k >= 1 && clamp(k-1) != clamp(k) {
-			// documented both ways (R type 1 vs function-help example): either neighbour
-			c = c.or(valueCell(sorted[clamp(k-1)]))
+			if !isDyadic(p) {
+				reading = readEither
+			}
+			switch reading {
+			case readLow:
+				c = valueCell(sorted[clamp(k-1)])
+			case readEither:
+				// documented both ways (R type 1 vs function-help example): either neighbour
+				c = c.or(valueCell(sorted[clamp(k-1)]))
+			}
 			c.note = "boundary"
 		}
 		return c
